@@ -45,6 +45,9 @@ type vgStep struct {
 	E        string `json:"e"`
 	Name     string `json:"name"` // rpc: MultiEndpoint name in the context ("" = none)
 	N        int    `json:"n"`    // tick: virtual milliseconds
+	// conc: RPCs and one reconfiguration run as goroutines, stepped gate to gate (gme.mu) in the order given by Sched
+	Procs []vgStep `json:"procs"`
+	Sched []int    `json:"sched"`
 }
 
 type vgScript struct {
@@ -91,6 +94,11 @@ type vgEvent struct {
 	Settled  bool      `json:"settled"`
 	Gor      int       `json:"gor"` // goroutines above the baseline taken before construction (after settling)
 	Msg      string    `json:"msg"`
+	Sub      []vgEvent `json:"sub,omitempty"`
+	Ivs      [][2]int  `json:"ivs,omitempty"`
+	Locks    [][]vLk   `json:"locks,omitempty"`
+	Exec     []int     `json:"exec,omitempty"`
+	Drift    int       `json:"drift,omitempty"`
 }
 
 type vgServer struct {
@@ -470,6 +478,12 @@ func (h *vgHarness) exec(i int, st vgStep) vgEvent {
 			}
 			return "OK"
 		})
+	case "conc":
+		if h.gme == nil || h.closed {
+			ev.Res = "SKIPPED"
+			break
+		}
+		h.execConc(st, &ev)
 	case "tick":
 		if h.gme == nil || h.closed {
 			ev.Res = "SKIPPED"
@@ -602,4 +616,105 @@ func TestVerifGME(t *testing.T) {
 		}
 	}
 	fmt.Printf("VERIF-GME scripts=%d events=%d\n", ns, ne)
+}
+
+
+// execConc: a concurrent section of a GCPMultiEndpoint script. Operations: rpc (Invoke) and update. Gates: the
+// acquisitions and releases of gme.mu in the rewritten gcp_multiendpoint.go (binary built with the gate rewrite);
+// monitor goroutines are not part of the section and pass the gates freely.
+func (h *vgHarness) execConc(st vgStep, ev *vgEvent) {
+	c := &vConc{byGid: map[string]*vProc{}, name: func(l interface{}) string {
+		if m, ok := l.(*sync.RWMutex); ok && h.gme != nil && m == &h.gme.mu {
+			return "gme"
+		}
+		return fmt.Sprintf("x%p", l)
+	}}
+	subs := make([]vgEvent, len(st.Procs))
+	for k, ps := range st.Procs {
+		ps := ps
+		k := k
+		subs[k] = vgEvent{I: ev.I, Op: ps.Op, Mes: ps.Mes, Def: ps.Def, FailDial: ps.FailDial, E: ps.E, Name: ps.Name, R: h.r, D: h.d, Res: "OK"}
+		if subs[k].Mes == nil {
+			subs[k].Mes = []vgME{}
+		}
+		p := &vProc{idx: k + 1, reg: make(chan struct{}), at: make(chan string, 1), rel: make(chan struct{})}
+		switch ps.Op {
+		case "rpc":
+			p.fn = func() vRes {
+				ctx, cancel := context.WithTimeout(context.Background(), 5*time.Second)
+				defer cancel()
+				if ps.Name != "" {
+					ctx = NewMEContext(ctx, ps.Name)
+				}
+				var md metadata.MD
+				if err := h.gme.Invoke(ctx, "/v/Echo", &emptypb.Empty{}, &emptypb.Empty{}, grpc.Header(&md)); err != nil {
+					return vRes{res: "ERR", msg: err.Error()}
+				}
+				srv := ""
+				if v := md.Get("srv"); len(v) > 0 {
+					srv = v[0]
+				}
+				return vRes{res: "OK", msg: srv}
+			}
+		case "update":
+			p.fn = func() vRes {
+				h.mu.Lock()
+				h.dials = nil
+				h.dialN = 0
+				h.failDial = ps.FailDial
+				h.mu.Unlock()
+				if err := h.gme.UpdateMultiEndpoints(h.opts(ps)); err != nil {
+					return vRes{res: "ERR"}
+				}
+				return vRes{res: "OK"}
+			}
+		}
+		if p.fn == nil {
+			subs[k].Res = "SKIPPED"
+			p.state = "done"
+		}
+		c.procs = append(c.procs, p)
+	}
+	hung := c.run(st.Sched)
+	c.refresh()
+	for k, p := range c.procs {
+		sub := subs[k]
+		switch {
+		case p.fn == nil:
+		case p.state == "done":
+			sub.Res = p.run.out.res
+			if st.Procs[k].Op == "rpc" && sub.Res == "OK" {
+				sub.Srv = p.run.out.msg
+			} else {
+				sub.Msg = p.run.out.msg
+			}
+			if st.Procs[k].Op == "update" {
+				h.mu.Lock()
+				sub.Dials = append([]vgDial{}, h.dials...)
+				h.mu.Unlock()
+			}
+		case p.state == "lockwait":
+			sub.Res, sub.Msg = "HANG", p.lockWait
+		default:
+			sub.Res, sub.Msg = "HANG", "still running at the end of the section: "+p.lockWait
+		}
+		if p.end == 0 {
+			c.clock++
+			p.end = c.clock
+		}
+		if sub.Dials == nil {
+			sub.Dials = []vgDial{}
+		}
+		ev.Sub = append(ev.Sub, sub)
+		ev.Ivs = append(ev.Ivs, [2]int{p.start, p.end})
+		lk := p.lks
+		if lk == nil {
+			lk = []vLk{}
+		}
+		ev.Locks = append(ev.Locks, lk)
+	}
+	ev.Exec, ev.Drift = c.exec, c.drift
+	if hung {
+		ev.Res = "HANG"
+	}
 }
